@@ -37,31 +37,31 @@ var stdComponents = map[string][]string{
 }
 
 var propTable = map[string]PropInfo{
-	"C01": {Engine: "history", Level: "exploration", QuickS: 14, ThorS: 420,
+	"C01": {Engine: "history", Level: "exploration", QuickS: 20, ThorS: 420,
 		Rule: "one evaluation = one seeded history (8-70 explicit ops over 1-4 trees) run against the sorted-map model with full contents re-read after every op; non-trivial = >=5 ops executed, not truncated, and at least one successful persist (or an in-memory tree); distinct = hash of (config, op kinds/trees/keys)"},
-	"C02": {Engine: "history", Level: "exploration", QuickS: 14, ThorS: 420,
+	"C02": {Engine: "history", Level: "exploration", QuickS: 20, ThorS: 420,
 		Rule: "one evaluation = one seeded history with clones, cursors, forks, persists and reloads sharing one disk and one cache; after every op every captured version is re-observed and compared with its observation at capture, and every cached node object is re-fingerprinted; non-trivial = at least one captured version was re-observed after a later op; distinct = hash of (config, op sequence)"},
-	"C03": {Engine: "history", Level: "exploration", QuickS: 14, ThorS: 420,
+	"C03": {Engine: "history", Level: "exploration", QuickS: 20, ThorS: 420,
 		Rule: "one evaluation = one seeded history whose MakeRoot calls run under the quiescence scheduler: every Store is parked and released one at a time in a chooser-picked order with chooser-picked outcomes (ok/fail/ack-lost/stall); non-trivial = a flush with >=2 Stores in flight that completed out of name order or had an injected failure; distinct = hash of (config, op sequence) "},
-	"C04": {Engine: "history", Level: "exploration", QuickS: 14, ThorS: 420,
+	"C04": {Engine: "history", Level: "exploration", QuickS: 20, ThorS: 420,
 		Rule: "one evaluation = one seeded history; at every MakeRoot the persisted graph is decoded independently and compared with the reference MST (height rule, shape), and 'canon' ops rebuild the same contents through a different history (shuffled inserts, extra keys deleted, mid-way reload, fresh store) and compare roots; non-trivial = at least one such comparison ran; distinct = hash of (config, op sequence)"},
-	"C05": {Engine: "history", Level: "exploration", QuickS: 14, ThorS: 420,
+	"C05": {Engine: "history", Level: "exploration", QuickS: 20, ThorS: 420,
 		Rule: "one evaluation = one seeded history with persist/reload/restart cycles (direct, via JSON of the Root, after restart); non-trivial = at least one reload or persisted-root read-back was compared; distinct = hash of (config, op sequence)"},
-	"C06": {Engine: "history", Level: "exploration", QuickS: 14, ThorS: 420,
+	"C06": {Engine: "history", Level: "exploration", QuickS: 20, ThorS: 420,
 		Rule: "one evaluation = one seeded history with diff ops over ordered pairs of live handles (trees, clones, reloaded roots, nil old); each diff is compared (callback and cursor interface) with the model difference; non-trivial = at least one diff compared; distinct = hash of (config, op sequence)"},
-	"C07": {Engine: "history", Level: "exploration", QuickS: 14, ThorS: 420,
+	"C07": {Engine: "history", Level: "exploration", QuickS: 20, ThorS: 420,
 		Rule: "one evaluation = one seeded history with DiffLinks over ordered pairs of persisted versions; reach sets by observation at the disk seam; replica-sync run on a second disk; non-trivial = at least one DiffLinks judged; distinct = hash of (config, op sequence)"},
-	"C08": {Engine: "history", Level: "exploration", QuickS: 14, ThorS: 420,
+	"C08": {Engine: "history", Level: "exploration", QuickS: 20, ThorS: 420,
 		Rule: "one evaluation = one seeded history; every Store call passes the write monitor (name = b64url(BLAKE2b-256(bytes)) with an independent hash; same name never with different bytes; same logical content never with different bytes) and every returned root passes the root registry; non-trivial = at least one root judged; distinct = hash of (config, op sequence)"},
-	"C09": {Engine: "history", Level: "exploration", QuickS: 14, ThorS: 420,
+	"C09": {Engine: "history", Level: "exploration", QuickS: 20, ThorS: 420,
 		Rule: "one evaluation = one seeded history; at every MakeRoot every node reachable from the root is decoded with the independent decoder and all shape clauses are checked relative to Root.Height; non-trivial = at least one persisted version walked; distinct = hash of (config, op sequence)"},
-	"C10": {Engine: "history", Level: "exploration", QuickS: 14, ThorS: 420,
+	"C10": {Engine: "history", Level: "exploration", QuickS: 20, ThorS: 420,
 		Rule: "one evaluation = one seeded history with cursor scripts (min/max/ceil then forward/backward steps) and SeekIter probes compared step by step with a sorted list; non-trivial = at least one cursor position or seek compared; distinct = hash of (config, op sequence)"},
-	"C13": {Engine: "history", Level: "exploration", QuickS: 14, ThorS: 420,
+	"C13": {Engine: "history", Level: "exploration", QuickS: 20, ThorS: 420,
 		Rule: "one evaluation = one seeded history; each MakeRoot's Store set is compared with reach(returned root), with the base version's decoded node key ranges and with the per-key write budget; IsDirty judged after every op; non-trivial = at least one judgement; distinct = hash of (config, op sequence)"},
-	"C15": {Engine: "history", Level: "exploration", QuickS: 14, ThorS: 420,
+	"C15": {Engine: "history", Level: "exploration", QuickS: 20, ThorS: 420,
 		Rule: "one evaluation = one seeded history; for ordered pairs of persisted versions loaded cache-less, distinct names Loaded during DiffLinks / DiffIter / NextEntry loop are compared with 2*D+2 (D from observed reach sets); non-trivial = at least one pair judged; distinct = hash of (config, op sequence)"},
-	"C16": {Engine: "history", Level: "exploration", QuickS: 14, ThorS: 420,
+	"C16": {Engine: "history", Level: "exploration", QuickS: 20, ThorS: 420,
 		Rule: "one evaluation = one seeded history; probe ops open a persisted version cache-less and count distinct names Loaded by LoadMast/Clone/Get/Insert/Delete against the height bounds; non-trivial = at least one probe judged; distinct = hash of (config, op sequence)"},
 }
 
